@@ -114,6 +114,8 @@ class Runner:
     def _save(self, name, t):
         self.it.save(name, t)
         self.memory.append(t)
+        self.names = getattr(self, 'names', {})
+        self.names[len(self.memory) - 1] = name
         self.counters['saves'] += 1
 
     def _load(self, name, t):
@@ -224,7 +226,8 @@ class Runner:
         elif op == 'save':
             t = self.top(1)
             if not t or not self.room(): raise Skip
-            self._save('s%d' % len(self.memory), t[0]); self.ops.add('save')
+            # names are free-form labels: a label may be used again for another term (step[1] set)
+            self._save(('n%d' % (len(self.memory) % 2)) if len(step) > 1 and step[1] else 's%d' % len(self.memory), t[0]); self.ops.add('save')
         elif op == 'save_many':
             # scale: memory indices around the signed-byte boundary and close to the 256-slot limit
             t = self.top(1)
@@ -234,7 +237,10 @@ class Runner:
             self.ops.add('save'); self.ops.add('save_many')
         elif op == 'load':
             if not self.memory: raise Skip
-            self._load('l', self.memory[step[1] % len(self.memory)]); self.ops.add('load')
+            idx = step[1] % len(self.memory)
+            # under the label the entry was saved with (if any and step[2] set), else under a label never used for a save
+            name = getattr(self, 'names', {}).get(idx, 'l') if len(step) > 2 and step[2] else 'l'
+            self._load(name, self.memory[idx]); self.ops.add('load')
         elif op == 'pop':
             t = self.top(1)
             if not t: raise Skip
@@ -376,8 +382,8 @@ def draw_step(draw, r: Runner, misuse=False):
     if k == 'save_many':
         if draw(st.integers(0, 2)): k = 'load'
         else: return ['save_many', draw(st.sampled_from([3, 12, 60, 125, 131, 200]))]
-    if k == 'save': return ['save']
-    if k == 'load': return ['load', draw(st.integers(0, 10 ** 6))]
+    if k == 'save': return ['save', draw(st.booleans())]
+    if k == 'load': return ['load', draw(st.integers(0, 10 ** 6)), draw(st.booleans())]
     if k == 'pop': return ['pop']
     if k == 'publish':
         return [{0: 'publish_axiom', 1: 'publish_claim', 2: 'prove_claim'}[r.phase]]
